@@ -71,7 +71,48 @@ def make_crls(outdir, keydir):
             return None
         if p.returncode == 0 and os.path.getsize(der) > 0:
             out.append("%d:%s" % (cls, der))
+    pin = make_pinned(d, cnf)
+    if pin:
+        out += pin
     return ",".join(out) if out else None
+
+
+PIN_SERIAL = "5EED01"
+
+
+def make_pinned(d, cnf):
+    """Issuer class 2 ("pinned"): a CA with cRLSign minted here (of the sample CAs only the RSA-2048 one may sign CRLs, and
+    that issuer is the churned class 0), a server certificate with serial PIN_SERIAL issued by it, and two CRLs that both
+    revoke that serial.  Files pinca.pem / pinleaf.pem / pinleaf.key land in d (passed to the harness as --pin d)."""
+    def sh(*cmd):
+        p = subprocess.run(list(cmd), capture_output=True, text=True)
+        if p.returncode:
+            raise OSError(p.stderr[-400:])
+    ext = os.path.join(d, "pin.ext")
+    open(ext, "w").write("[ca]\nbasicConstraints=critical,CA:TRUE\nkeyUsage=critical,keyCertSign,cRLSign\nsubjectKeyIdentifier=hash\n"
+                         "[leaf]\nbasicConstraints=CA:FALSE\nkeyUsage=critical,digitalSignature,keyEncipherment\nextendedKeyUsage=serverAuth\n"
+                         "subjectKeyIdentifier=hash\nauthorityKeyIdentifier=keyid\n[req]\ndistinguished_name=dn\n[dn]\n")
+    J = lambda f: os.path.join(d, f)
+    try:
+        sh("openssl", "genrsa", "-traditional", "-out", J("pinca.key"), "2048")
+        sh("openssl", "req", "-new", "-x509", "-config", ext, "-extensions", "ca", "-key", J("pinca.key"), "-sha256", "-days", "3650",
+           "-subj", "/C=FI/O=C20 check/CN=C20 pinned CRL issuer", "-out", J("pinca.pem"))
+        sh("openssl", "genrsa", "-traditional", "-out", J("pinleaf.key"), "2048")
+        sh("openssl", "req", "-new", "-config", ext, "-key", J("pinleaf.key"), "-subj", "/C=FI/O=C20 check/CN=localhost", "-out", J("pinleaf.csr"))
+        sh("openssl", "x509", "-req", "-in", J("pinleaf.csr"), "-CA", J("pinca.pem"), "-CAkey", J("pinca.key"), "-set_serial", "0x" + PIN_SERIAL,
+           "-sha256", "-days", "3650", "-extfile", ext, "-extensions", "leaf", "-out", J("pinleaf.pem"))
+        out = []
+        rev = "R\t360101000000Z\t260101000000Z\t%s\tunknown\t/CN=c20-revoked\n" % PIN_SERIAL
+        fill = lambda tag, n: "".join("R\t360101000000Z\t260101000000Z\t7F%s%04X\tunknown\t/CN=c20-filler-%d\n" % (tag, i, i) for i in range(n))
+        for name, index in (("pin1", rev + fill("AA", 250)), ("pin2", fill("BB", 500) + rev)):
+            open(os.path.join(d, "ca", "index.txt"), "w").write(index)
+            sh("openssl", "ca", "-config", cnf, "-gencrl", "-cert", J("pinca.pem"), "-keyfile", J("pinca.key"), "-out", J(name + ".pem"))
+            sh("openssl", "crl", "-in", J(name + ".pem"), "-outform", "der", "-out", J(name + ".der"))
+            out.append("2:" + J(name + ".der"))
+        return out
+    except OSError as e:
+        vflib.log("[C20] could not mint the pinned CRL class: %s" % e)
+        return None
 
 
 # ------------------------------------------------------------------------------------------ TSan / helgrind logs
@@ -191,7 +232,7 @@ def helgrind_keys(text):
 
 # ------------------------------------------------------------------------------------------ history checker
 ECDHE = {0xc02f, 0xc027, 0xc030, 0xc02b, 0xc023, 0xc013, 0xc014, 0xc009, 0x1301, 0x1302, 0x1303}
-CRLSUB = ["update", "update-auth", "insert", "delete", "delete-all", "query"]
+CRLSUB = ["update", "update-auth", "insert", "delete", "delete-all", "query", "refresh-pinned"]
 
 
 PRIMARY = {"id12": "id", "id11": "id", "tk12": "tk", "psk13": "psk"}
@@ -228,7 +269,7 @@ def kind_of(o):
             return "hs:%s:fallback-full" % o["lt"]
         if any(o["off_" + f] != "0" for f in ("id", "tk", "psk")):
             return "hs:%s:full-not-offered" % o["lt"]
-        return "hs:%s:full:%s%s" % (o["lt"], "ecdhe" if o["suite"] in ECDHE else "rsa", "+cauth" if o["cauth"] else "")
+        return "hs:%s:full:%s%s" % (o["lt"], ("ecdhe-p%d" % o["curve"] if o.get("curve") else "ecdhe") if o["suite"] in ECDHE else "rsa", "+cauth" if o["cauth"] else "")
     if k == "tkdel":
         return "tkdel" if o["rc"] == 0 else "tkdel:miss"
     if k == "crl":
@@ -313,7 +354,7 @@ def check_history(h, res, replay, pairs, samples):
         if o["srv_err"] and o["srv_sid"] != "0":
             invalid.setdefault(o["srv_sid"], []).append(o)
     # every TLS <= 1.2 handshake may take or recycle a session-cache entry (ticket clients too while the server has no ticket keys)
-    id_ops = [o for o in hs if o["lt"] != "psk13"]
+    id_ops = [o for o in hs if o["lt"] != "psk13"] + [o for o in ops if o["k"] == "revhs"]
     uses = {}       # session id -> operations whose server session held that cache entry (any thread: credentials are also borrowed)
     for o in hs:
         if o["srv_sid"] != "0":
@@ -416,6 +457,8 @@ def check_history(h, res, replay, pairs, samples):
             st("full_handshakes", 1)
 
     # ---- other operations
+    pins = [o["r"] for o in ops if o["k"] == "crl" and o["sub"] == 6 and o["rc"] == 1]
+    pinned_since = min(pins) if pins else None
     seen = {}
     for o in ops:
         k = o["k"]
@@ -447,6 +490,24 @@ def check_history(h, res, replay, pairs, samples):
                 V("c20:crl-op-unexpected:" + CRLSUB[sub], "expected %d: %s" % (o["expect"], brief(o)))
         elif k == "reset":
             st("credential_resets", 1)
+        elif k == "revq":
+            # the pinned issuer class is only ever refreshed (psCRL_Update) with CRLs that list the certificate: once the first
+            # refresh has returned, "not revoked" / "no CRL" cannot be explained by any order of refreshes and queries
+            st("revocation_queries", o["n"])
+            if pinned_since is not None and o["c"] > pinned_since:
+                st("revocation_queries_checked", o["n"])
+                if o["bad"] or o["rc"] != 9:
+                    V("c20:crl-status-not-serializable:query", "%d of %d psCRL_determineRevokedStatus answers for the revoked certificate were not REVOKED_AND_AUTHENTICATED "
+                      "(first: %d) although a CRL listing it was cached before the operation started and is only ever replaced by psCRL_Update: %s" % (o["bad"], o["n"], o["rc"], brief(o)))
+        elif k == "revhs":
+            st("revoked_cert_handshakes", 1)
+            if pinned_since is not None and o["c"] > pinned_since:
+                st("revoked_cert_handshakes_checked", 1)
+                if o["done"]:
+                    V("c20:crl-status-not-serializable:handshake-with-revoked-certificate", "a handshake with a server certificate that every cached CRL of its issuer lists as revoked "
+                      "completed: %s cb_alert=%d" % (brief(o), o["cb_alert"]))
+                elif o["cb_alert"] == 44:
+                    st("revoked_cert_handshakes_refused_as_revoked", 1)
     return noverlap
 
 
@@ -495,6 +556,8 @@ def launch(run, binary, crlarg, keydir, tool, timeout):
            "--keys", keydir]
     if crlarg:
         cmd += ["--crl", crlarg]
+        if ",2:" in crlarg:
+            cmd += ["--pin", os.path.dirname(crlarg.split(",2:")[1].split(",")[0])]
     if run.empty:
         cmd += ["--empty", "1"]
     if tool == "helgrind":
@@ -565,8 +628,8 @@ def run(ctx):
     crlarg = make_crls(outdir, keydir)
     res = vflib.Result(PID)
     res.extra["outdir"] = outdir
-    if not crlarg:
-        res.incon.append("could not mint CRLs with the openssl CLI; CRL cache churn not exercised")
+    if not crlarg or ",2:" not in crlarg:
+        res.incon.append("could not mint CRLs with the openssl CLI; CRL cache churn / revocation serializability not exercised")
 
     if ctx.replay:
         rp = json.load(open(ctx.replay)) if os.path.exists(ctx.replay) else {"replay": ctx.replay}
